@@ -202,6 +202,19 @@ class C05(Prop):
             for b in ("s", "A", "K", "kg", "m"):
                 for c in ("s", "A", "K", "kg", "m", "g"):
                     out.append(Case("unit " + C.hexs(a + b + c), "word-three-names", a + b + c))
+        # a name followed by a PREFIXED name and the other way round, written together (`mkg`, `kgm`,
+        # `hkW`, `Nmkg`): the piece after the first must not be lost
+        psym = [p[0] for p in v.prefixes if len(p[0]) <= 2]
+        for _ in range(6000 if tier == "quick" else 80000):
+            a, b = rng.choice(short), rng.choice(short if rng.chance(3, 4) else names)
+            k = rng.below(4)
+            w = (a + rng.choice(psym) + b) if k == 0 else (rng.choice(psym) + a + b) if k == 1 else \
+                (a + rng.choice(psym) + b + rng.choice(short)) if k == 2 else (rng.choice(short) + a + rng.choice(psym) + b)
+            out.append(Case("unit " + C.hexs(w), "word-name-prefixed", w))
+        for a in ("m", "h", "y", "M", "a", "T", "c", "N", "s", "g"):
+            for pb in ("kg", "kN", "kW", "nF", "dag", "dm", "GW", "EB", "Pm", "ZB", "Ys", "zs", "fm", "pF", "ns"):
+                out.append(Case("unit " + C.hexs(a + pb), "word-name-prefixed", a + pb))
+                out.append(Case("unit " + C.hexs("N" + a + pb), "word-name-prefixed", "N" + a + pb))
         # single-edit corruptions of names (reject stream)
         for n in names[:: 2 if tier == "quick" else 1]:
             for k in range(len(n)):
